@@ -126,7 +126,7 @@ func (n *Node) Features() Features {
 
 // ---------------- generator ----------------
 
-var DefNames = []string{"a", "b", "c", "d", "Ab", "aB", "a-b", "a_b", "x", "long-Name_1", "Ünit", "ünit", "Ärger-x", "a-b-c", "br", "link"}
+var DefNames = []string{"a", "b", "c", "d", "Ab", "aB", "a-b", "a_b", "x", "long-Name_1", "Ünit", "ünit", "Ärger-x", "a-b-c", "br", "link", "\u1f88ta"}
 var DefPrefixes = []string{"", "", "", "", "ns", "n2"}
 
 // Text classes the suite never samples.
@@ -179,6 +179,9 @@ func foldKey(s string) string {
 
 func (g GenCfg) Gen(r *rand.Rand, depth int) *Node {
 	n := &Node{Prefix: g.pick(r, g.Prefixes), Local: g.name(r)}
+	if strings.HasPrefix(n.Local, ":") {
+		n.Prefix = "" // (a name that starts with a colon is legal XML 1.0 only without a prefix)
+	}
 	na := 0
 	if g.MaxAttrs > 0 {
 		na = r.Intn(g.MaxAttrs + 1)
@@ -186,6 +189,9 @@ func (g GenCfg) Gen(r *rand.Rand, depth int) *Node {
 	seen := map[string]bool{}
 	for i := 0; i < na; i++ {
 		a := Attr{Prefix: g.pick(r, g.Prefixes), Local: g.name(r), Val: g.text(r)}
+		if strings.HasPrefix(a.Local, ":") {
+			a.Prefix = ""
+		}
 		k := foldKey(a.Local)
 		if g.SeqMode {
 			k = QN(a.Prefix, a.Local)
